@@ -94,7 +94,15 @@ func BuildAction(r *rec.Rec) (of.Action, error) {
 			return nil, err
 		}
 		if r.Bool("_one_call") {
-			a.AddAction(nested...)
+			// the caller spreads a scratch slice with spare capacity and reuses it right afterwards for something else
+			scratch := make([]of.Action, len(nested), len(nested)+2)
+			copy(scratch, nested)
+			a.AddAction(scratch...)
+			for i := range scratch {
+				scratch[i] = of.NewActionGroup(0xdead0000 + uint32(i))
+			}
+			scratch = append(scratch, of.NewActionGroup(0xdeadbeef))
+			_ = scratch
 		} else {
 			for _, n := range nested {
 				a.AddAction(n)
